@@ -448,7 +448,7 @@ def gen_bg(rng: random.Random, d: dict, focus: dict) -> list[dict]:
             rec = {'pos': p, 'ref': U[p - 1], 'alts': [alt]}
         elif kind == 'mnv':
             span = [p, p + 1]
-            if any(exon_at(exons, q) for q in span):
+            if any(exon_at(exons, q) for q in span) and not focus.get('bg_mnv_coding'):
                 continue
             rec = {'pos': p, 'ref': U[p - 1:p + 1], 'alts': [''.join(rng.choice([c for c in NT if c != x]) for x in U[p - 1:p + 1])]}
         elif kind == 'ins':
